@@ -21,6 +21,9 @@ kind (decided syntactically):
   6 fs-write         open with a constant mode containing w, a, x or +; makedirs / mkdir / write_text / …    [registry]
   7 fs-write-dynmode open with a non-constant mode                                                           [registry]
   8 fs-destructive   remove / unlink / rename / replace / rmdir / shutil.* / tempfile.* / chmod / symlink    [never allowed]
+ 10 wrapper-import-dynamic  a call of a project function that hands one of its parameters to an import-dynamic site or to  [registry]
+ 11 wrapper-eval-exec       another such wrapper (followed to a fixpoint over all non-test modules; e.g. `get_module(x)`,  [registry]
+ 12 wrapper-unsafe          `get_parser(node, kind)`, `sync_property(…)`, `gen(**args)`): the wrapper is treated as a primitive  [never allowed]
   9 unsafe           pickle/marshal/shelve/dill load(s), Unpickler, yaml.load without a safe Loader, unsafe_load, full_load,
                      subprocess, os.system/popen/exec*/spawn*/fork, pty, ctypes, multiprocessing, any network API,
                      runpy, imp, importlib.util.spec_from_file_location / module_from_spec                   [never allowed]
@@ -45,8 +48,12 @@ from pathlib import Path
 from harness.translators.loops import digest
 
 KIND_NAMES = ["literal-eval", "yaml-safe", "import-const", "import-dynamic", "eval-exec", "serialise-only", "fs-write",
-              "fs-write-dynmode", "fs-destructive", "unsafe"]
-(K_LITERAL, K_YAML_SAFE, K_IMPORT_CONST, K_IMPORT_DYN, K_EVAL, K_SERIALISE, K_FS_WRITE, K_FS_DYNMODE, K_FS_DESTR, K_UNSAFE) = range(10)
+              "fs-write-dynmode", "fs-destructive", "unsafe", "wrapper-import-dynamic", "wrapper-eval-exec", "wrapper-unsafe"]
+(K_LITERAL, K_YAML_SAFE, K_IMPORT_CONST, K_IMPORT_DYN, K_EVAL, K_SERIALISE, K_FS_WRITE, K_FS_DYNMODE, K_FS_DESTR, K_UNSAFE,
+ K_W_IMPORT, K_W_EVAL, K_W_UNSAFE) = range(13)
+# dynamic-execution primitives whose project-level wrappers are followed (to a fixpoint), and the kind given to a call of such a wrapper
+WRAPPED = {K_IMPORT_DYN: K_W_IMPORT, K_EVAL: K_W_EVAL, K_UNSAFE: K_W_UNSAFE}
+W_SEVERITY = [K_W_UNSAFE, K_W_EVAL, K_W_IMPORT]
 
 YAML_SAFE = {"safe_load", "safe_load_all", "safe_dump", "safe_dump_all", "dump", "dump_all", "SafeLoader", "CSafeLoader", "BaseLoader",
              "CBaseLoader", "SafeDumper", "CSafeDumper", "Dumper", "CDumper", "YAMLError", "YAMLObject", "scan", "parse", "compose", "compose_all",
@@ -86,6 +93,10 @@ def _const_strs(node):
 class _Module:
     def __init__(self, rel: str, tree: ast.Module):
         self.rel, self.tree = rel, tree
+        self.modname = rel[:-3].replace("/", ".")
+        if self.modname.endswith(".__init__"):
+            self.modname = self.modname[: -len(".__init__")]
+        self.own_defs = {n.name: n for n in tree.body if isinstance(n, (ast.FunctionDef, ast.AsyncFunctionDef))}
         self.parents = {}
         for p in ast.walk(tree):
             for c in ast.iter_child_nodes(p):
@@ -128,6 +139,8 @@ class _Module:
         if isinstance(node, ast.Name):
             if node.id in self.alias:
                 return self.alias[node.id]
+            if node.id in self.own_defs:
+                return self.modname + "." + node.id
             if hasattr(builtins, node.id):
                 return node.id
             for mod_name, mod in self.star:
@@ -174,10 +187,61 @@ class _Module:
                 out.append(("then:" if child in p.body else "else:") + ast.dump(p.test))
             elif isinstance(p, ast.IfExp) and child is not p.test:
                 out.append(("then:" if child is p.body else "else:") + ast.dump(p.test))
+            elif isinstance(p, ast.Try):
+                hs = ",".join(ast.dump(h.type) if h.type is not None else "*" for h in p.handlers)
+                if child in p.body:
+                    out.append("try[%s]" % hs)
+                elif child in p.orelse:
+                    out.append("try-else[%s]" % hs)
+                elif child in p.finalbody:
+                    out.append("finally")
+            elif isinstance(p, ast.ExceptHandler):
+                out.append("except:" + (ast.dump(p.type) if p.type is not None else "*"))
             elif isinstance(p, (ast.FunctionDef, ast.AsyncFunctionDef, ast.Lambda)):
                 break
             child = p
         return out
+
+    def top_function(self, n):
+        """the top-level function definition that contains the node (None at module level / inside classes)"""
+        top = None
+        while n in self.parents:
+            n = self.parents[n]
+            if isinstance(n, (ast.FunctionDef, ast.AsyncFunctionDef)) and self.parents.get(n) is self.tree:
+                top = n
+        return top
+
+    def param_flows(self, call, fn):
+        """does a parameter of `fn` reach the arguments of `call`?  Directly (the parameter's name occurs in an argument), or through one
+        assignment whose right-hand side mentions a parameter and only calls methods on it / on string constants (`p.rpartition(".")`,
+        `"{}".format(p)`); a call of another function on the way (`typ = parse_adhoc_doc_for_typ(doc, …)`) is a barrier."""
+        a = fn.args
+        params = {x.arg for x in a.args + a.kwonlyargs + a.posonlyargs + [y for y in (a.vararg, a.kwarg) if y]} - {"self", "cls"}
+        names = {x.id for e in list(call.args) + [k.value for k in call.keywords] for x in ast.walk(e) if isinstance(x, ast.Name) and isinstance(x.ctx, ast.Load)}
+        if names & params:
+            return True
+
+        def plain(rhs):
+            if not any(isinstance(x, ast.Name) and x.id in params for x in ast.walk(rhs)):
+                return False
+            for c in ast.walk(rhs):
+                if isinstance(c, ast.Call):
+                    f = c.func
+                    if not isinstance(f, ast.Attribute):
+                        return False
+                    root = f.value
+                    while isinstance(root, (ast.Attribute, ast.Subscript, ast.Call)):
+                        root = root.value if not isinstance(root, ast.Call) else root.func
+                    if not ((isinstance(root, ast.Name) and root.id in params) or (isinstance(root, ast.Constant) and isinstance(root.value, str))):
+                        return False
+            return True
+
+        for n in ast.walk(fn):
+            if isinstance(n, ast.Assign) and any(isinstance(t, ast.Name) and t.id in names for tt in n.targets for t in ast.walk(tt)) and plain(n.value):
+                return True
+            if isinstance(n, ast.AnnAssign) and isinstance(n.target, ast.Name) and n.target.id in names and n.value is not None and plain(n.value):
+                return True
+        return False
 
     def flows(self, call):
         """one hop of data flow: right-hand sides bound, in the enclosing scope, to names used in the call's arguments"""
@@ -285,11 +349,14 @@ def _classify(q: str, call, m: _Module):
 
 def scan(repo: Path, pkg: str = "cdd"):
     sites = []
+    modules = []
+    wrappers = {}  # fully-qualified function name -> set of wrapper kinds it reaches with one of its parameters
     for f in sorted((Path(repo) / pkg).rglob("*.py")):
         rel = str(f.relative_to(repo))
         if "/tests/" in rel:
             continue
         m = _Module(rel, ast.parse(f.read_text()))
+        modules.append(m)
         seen_nodes = set()
         for n in ast.walk(m.tree):
             kind = q = None
@@ -347,7 +414,71 @@ def scan(repo: Path, pkg: str = "cdd"):
                 "guards": len(guards), "flows": [x.split("=", 1)[0] for x in flows],
                 "digest": digest(rel, where, str(kind), dump, "\x01".join(guards), "\x01".join(flows)),
             })
-    return sites
+            if kind in WRAPPED and call is not None:
+                fn = m.top_function(call)
+                if fn is not None and m.param_flows(call, fn):
+                    wrappers.setdefault(m.modname + "." + fn.name, set()).add(WRAPPED[kind])
+    return sites + _wrapper_sites(modules, wrappers)
+
+
+def _wrapper_sites(modules, wrappers):
+    """calls of project functions that wrap a dynamic-execution primitive, to a fixpoint: a function that hands one of its own
+    parameters to a wrapper is a wrapper itself"""
+    by_name = {m.modname: m for m in modules}
+
+    def canon(q, depth=0):
+        """follow re-exports: `pkg.mod.name` where `name` is itself an imported alias inside pkg.mod"""
+        if q is None or q in wrappers or depth > 4:
+            return q
+        mod, _, name = q.rpartition(".")
+        m = by_name.get(mod)
+        if m is not None and name in m.alias and name not in m.own_defs:
+            return canon(m.alias[name], depth + 1)
+        return q
+
+    calls = []  # (module, call node — or the consuming expression for an uncalled reference such as partial(get_module, x) —, resolved callee, is_ref)
+    for m in modules:
+        for n in ast.walk(m.tree):
+            if isinstance(n, ast.Call):
+                q = m.resolve(n.func)
+                if q is not None and q.startswith("cdd."):
+                    calls.append((m, n, q, False))
+            elif isinstance(n, (ast.Name, ast.Attribute)) and isinstance(n.ctx, ast.Load):
+                p = m.parents.get(n)
+                if (isinstance(p, ast.Call) and p.func is n) or (isinstance(p, ast.Attribute) and p.value is n):
+                    continue
+                q = m.resolve(n)
+                if q is not None and q.startswith("cdd.") and isinstance(p, ast.AST):
+                    calls.append((m, p, q, True))
+    changed = True
+    while changed:
+        changed = False
+        for m, n, q, is_ref in calls:
+            kinds = wrappers.get(canon(q))
+            if not kinds:
+                continue
+            fn = m.top_function(n)
+            if fn is not None and (m.param_flows(n, fn) if isinstance(n, ast.Call) else True):
+                key = m.modname + "." + fn.name
+                if not kinds <= wrappers.get(key, set()):
+                    wrappers.setdefault(key, set()).update(kinds)
+                    changed = True
+    out = []
+    for m, n, q, is_ref in calls:
+        cq = canon(q)
+        kinds = wrappers.get(cq)
+        if not kinds:
+            continue
+        kind = next(k for k in W_SEVERITY if k in kinds)
+        where, guards, flows = m.qual(n), m.guards(n), m.flows(n)
+        if is_ref:
+            cq = cq + " (uncalled reference)"
+        out.append({
+            "file": m.rel, "func": where, "line": n.lineno, "kind": kind, "kind_name": KIND_NAMES[kind], "api": "wrapper:" + cq,
+            "called": not is_ref, "expr": ast.unparse(n).replace("\n", " ")[:110], "guards": len(guards), "flows": [x.split("=", 1)[0] for x in flows],
+            "digest": digest(m.rel, where, str(kind), ",".join(str(k) for k in sorted(kinds)), cq, ast.dump(n), "\x01".join(guards), "\x01".join(flows)),
+        })
+    return out
 
 
 # ------------------------------------------------------------------------------------------------------------------
@@ -528,8 +659,19 @@ def selftest():
         star = sorted(s["kind"] for s in sites if s["file"].endswith("star.py"))
         if star != sorted([K_UNSAFE, K_UNSAFE, K_UNSAFE, K_YAML_SAFE]):
             return False, "self-test (star imports): kinds %s; sites %s" % (star, [(s["line"], s["api"], s["kind_name"]) for s in sites if s["file"].endswith("star.py")])
-        sites = [s for s in sites if s["file"].endswith("m.py")]
+        # wrappers, to a fixpoint, across modules, through a re-export and an uncalled reference; a sanitising call is a barrier
+        (p / "w1.py").write_text("from importlib import import_module\ndef load(name, pkg=None):\n    try:\n        return import_module(name, pkg)\n    except ImportError:\n        return None\n"
+                                 "def run(src):\n    return eval(src)\ndef safe(doc):\n    t = clean(doc)\n    return eval(t)\ndef clean(d):\n    return d\n")
+        (p / "w2.py").write_text("from cdd.w1 import load, run\nfrom functools import partial\ndef outer(path, other):\n    stem = path.rpartition('.')[0]\n    return load(stem)\n"
+                                 "def outer2(x):\n    return partial(run, x)\ndef top(p):\n    return outer(p, 1)\n")
+        (p / "w3.py").write_text("import cdd.w2\nfrom cdd.w2 import load as ld\ndef cli(argv):\n    cdd.w2.top(argv[0]); ld('const'); cdd.w2.outer2(argv)\nfrom cdd.w1 import safe\ndef d(doc):\n    return safe(doc)\n")
+        sites = scan(Path(d))
+        w = sorted((s["file"][4:], s["line"], s["kind"]) for s in sites if s["kind"] >= K_W_IMPORT)
+        expect_w = sorted([("w2.py", 5, K_W_IMPORT), ("w2.py", 7, K_W_EVAL), ("w2.py", 9, K_W_IMPORT), ("w3.py", 4, K_W_IMPORT), ("w3.py", 4, K_W_IMPORT), ("w3.py", 4, K_W_EVAL)])
+        if w != expect_w:
+            return False, "self-test (wrappers): %s, expected %s" % (w, expect_w)
+        sites = [s for s in scan(Path(d)) if s["file"].endswith("m.py")]
         got = sorted(s["kind"] for s in sites)
     if got != SELFTEST_EXPECT:
         return False, "self-test: kinds %s, expected %s; sites: %s" % (got, SELFTEST_EXPECT, [(s["line"], s["api"], s["kind_name"]) for s in sites])
-    return True, "%d + 4 sites of the two self-test modules classified as expected" % len(got)
+    return True, "%d + 4 + 6 sites (aliases, star imports, wrappers to a fixpoint across modules) of the self-test modules classified as expected" % len(got)
